@@ -390,6 +390,7 @@ func checkC14(r *vt.Run) {
 					if n == 3 && code == 77777 && b == 60 && from == 0 {
 						r.Sample(c)
 					}
+					r.Crumb(c)
 					c14Run(r, fam, c)
 				}
 			}
